@@ -110,3 +110,32 @@ pub fn replay_regress_generic(ctx: &mut Ctx, replay: ReplayFn) {
         }
     }
 }
+
+/// A fuzz tape (`.ftape`, from the `tape` fuzz target): the byte tape the property's own generator reads.
+/// C20 has two generator families (single parameter sets / histories): the first byte selects.
+pub fn replay_ftape(id: &str, ctx: &mut Ctx, data: &[u8]) -> Result<Option<String>, Fail> {
+    let Some((id, _run, replay)) = registry(id) else {
+        return Err(Fail::new("unknown property", "ftape", data.to_vec()));
+    };
+    if id == "C20" {
+        let (sel, rest) = data.split_first().map_or((0u8, data), |(s, r)| (*s, r));
+        return replay(ctx, if sel & 1 == 1 { "htape" } else { "tape" }, rest);
+    }
+    replay(ctx, "tape", data)
+}
+
+/// A grammar-fuzz input (`.gtext`, from the `grammar` fuzz target): three selector bytes, then text
+/// that becomes the body of the property's section (C11: any of the six key/value sections, C12:
+/// [TimingPoints], C14: [HitObjects]).
+pub fn replay_gtext(id: &str, ctx: &mut Ctx, data: &[u8]) -> Result<Option<String>, Fail> {
+    if data.len() < 3 {
+        return Ok(None);
+    }
+    let text = String::from_utf8_lossy(&data[3..]).into_owned();
+    match id {
+        "C11" => c11::fuzz_text(&text).map(|_| None),
+        "C12" => c12::fuzz_text([data[0], data[1], data[2]], &text, ctx.open(c12::K6)).map(|k| k.map(str::to_string)),
+        "C14" => c14::fuzz_text(&text).map(|_| None),
+        _ => Err(Fail::new("the grammar target covers C11, C12 and C14", "gtext", data.to_vec())),
+    }
+}
